@@ -56,6 +56,12 @@ func propagateMatchers(binOp *parser.BinaryExpr) {
 		return
 	}
 
+	// The maps below hold one matcher per label name, so a selector with several
+	// matchers on one label cannot be represented; leave such expressions alone.
+	if hasRepeatedLabel(lhSelector) || hasRepeatedLabel(rhSelector) {
+		return
+	}
+
 	lhMatchers := toMatcherMap(lhSelector)
 	rhMatchers := toMatcherMap(rhSelector)
 	union, hasDuplicates := makeUnion(lhMatchers, rhMatchers)
@@ -63,9 +69,31 @@ func propagateMatchers(binOp *parser.BinaryExpr) {
 		return
 	}
 
+	// The union leaves out the metric name, which each side has to keep for itself.
 	finalMatchers := toSlice(union)
-	lhSelector.LabelMatchers = finalMatchers
-	rhSelector.LabelMatchers = finalMatchers
+	lhSelector.LabelMatchers = append(nameMatchers(lhSelector), finalMatchers...)
+	rhSelector.LabelMatchers = append(nameMatchers(rhSelector), finalMatchers...)
+}
+
+func nameMatchers(selector *parser.VectorSelector) []*labels.Matcher {
+	var matchers []*labels.Matcher
+	for _, m := range selector.LabelMatchers {
+		if m.Name == labels.MetricName {
+			matchers = append(matchers, m)
+		}
+	}
+	return matchers
+}
+
+func hasRepeatedLabel(selector *parser.VectorSelector) bool {
+	seen := make(map[string]struct{}, len(selector.LabelMatchers))
+	for _, m := range selector.LabelMatchers {
+		if _, ok := seen[m.Name]; ok {
+			return true
+		}
+		seen[m.Name] = struct{}{}
+	}
+	return false
 }
 
 func toSlice(union map[string]*labels.Matcher) []*labels.Matcher {
